@@ -75,6 +75,33 @@ impl Server {
     pub async fn account(&self) -> Option<Arc<RwLock<ServerStorage>>> {
         self.storage.read().await.clone()
     }
+    /// the server's start-up path over an existing storage directory (server/src/backend.rs
+    /// load_fs_accounts / load_db_accounts): every account found is opened with ServerStorage::new
+    pub async fn try_new(dir: &Path, account_id: AccountId, db: bool) -> Result<Arc<Server>, String> {
+        let cls = |e: &dyn std::fmt::Debug| -> String {
+            format!("{e:?}").chars().filter(|c| c.is_ascii_alphanumeric() || *c == '_' || *c == ':' || *c == '(').take(60).collect()
+        };
+        std::fs::create_dir_all(dir).map_err(|e| cls(&e))?;
+        Paths::scaffold(&dir.to_path_buf()).await.map_err(|e| cls(&e))?;
+        let paths = Paths::new_server(dir);
+        let (target, exists) = if db {
+            let mut client = sos_database::open_file(paths.database_file()).await.map_err(|e| cls(&e))?;
+            sos_database::migrations::migrate_client(&mut client).await.map_err(|e| cls(&e))?;
+            let accounts = sos_database::entity::AccountEntity::list_all_accounts(&client).await.map_err(|e| cls(&e))?;
+            let exists = accounts.iter().any(|a| *a.identity.account_id() == account_id);
+            (BackendTarget::Database(paths, client), exists)
+        } else {
+            let exists = paths.local_dir().join(account_id.to_string()).is_dir();
+            (BackendTarget::FileSystem(paths), exists)
+        };
+        let storage = if exists {
+            let st = ServerStorage::new(target.clone(), &account_id).await.map_err(|e| cls(&e))?;
+            Some(Arc::new(RwLock::new(st)))
+        } else {
+            None
+        };
+        Ok(Arc::new(Server { target, account_id, storage: RwLock::new(storage), trace: StdMutex::new(vec![]), snaps: StdMutex::new(vec![]), record_snaps: std::sync::atomic::AtomicBool::new(false) }))
+    }
     pub async fn log_leaves(&self) -> std::collections::BTreeMap<String, Vec<[u8; 32]>> {
         use sos_core::events::EventLog;
         use sos_sync::StorageEventLogs;
@@ -335,6 +362,27 @@ impl Device {
         account.sign_in(&key).await.expect("sign_in");
         let _ = account.initialize_search_index().await;
         Self::wrap(name, dir, account, server, gate)
+    }
+    /// the normal open path, reporting failures instead of panicking (crash recovery)
+    pub async fn try_open(name: &str, dir: &Path, account_id: AccountId, server: Arc<Server>, db: bool, gate: Gate) -> Result<Device, String> {
+        let cls = |stage: &str, e: &dyn std::fmt::Debug| -> String {
+            let s: String = format!("{e:?}").chars().filter(|c| c.is_ascii_alphanumeric() || *c == '_' || *c == ':' || *c == '(').take(60).collect();
+            format!("{stage}:{s}")
+        };
+        let paths = Paths::new_client(dir);
+        let target = if db {
+            let mut client = sos_database::open_file(paths.database_file()).await.map_err(|e| cls("db", &e))?;
+            sos_database::migrations::migrate_client(&mut client).await.map_err(|e| cls("db", &e))?;
+            BackendTarget::Database(paths.clone(), client)
+        } else {
+            Paths::scaffold(paths.documents_dir()).await.map_err(|e| cls("scaffold", &e))?;
+            BackendTarget::FileSystem(paths.clone())
+        };
+        let mut account = LocalAccount::new_unauthenticated(account_id, target).await.map_err(|e| cls("new", &e))?;
+        let key: sos_core::crypto::AccessKey = password().into();
+        account.sign_in(&key).await.map_err(|e| cls("sign_in", &e))?;
+        let _ = account.initialize_search_index().await;
+        Ok(Self::wrap(name, dir, account, server, gate))
     }
     fn wrap(name: &str, dir: &Path, account: LocalAccount, server: Arc<Server>, gate: Gate) -> Device {
         let account_id = *account.account_id();
